@@ -74,6 +74,10 @@ type wsConn struct {
 	// outgoing messages
 	writeLk sync.Mutex
 
+	// reconnLk makes "the reconnect goroutine starts a dial" and "the connection
+	// loop has ended" mutually exclusive
+	reconnLk sync.Mutex
+
 	// ////
 	// Client related
 
@@ -707,16 +711,23 @@ func (c *wsConn) tryReconnect(ctx context.Context) bool {
 		var conn *websocket.Conn
 		for conn == nil {
 			time.Sleep(c.reconnectBackoff.next(attempts))
+			c.reconnLk.Lock()
 			if ctx.Err() != nil {
+				c.reconnLk.Unlock()
 				return
 			}
-			var err error
 			vhook(c, "ws.reconn.dial", attempts)
+			c.reconnLk.Unlock()
+			var err error
 			if conn, err = c.connFactory(); err != nil {
 				log.Debugw("websocket connection retry failed", "error", err)
 			}
 			select {
 			case <-ctx.Done():
+				if conn != nil {
+					// dialled while the connection loop was ending: nobody will use it
+					_ = conn.Close()
+				}
 				return
 			default:
 			}
@@ -809,6 +820,14 @@ func (c *wsConn) handleWsConn(ctx context.Context) {
 	c.registerCh = make(chan outChanReg)
 	defer vhook(c, "ws.exit.end", nil)
 	defer close(c.exiting)
+	// runs before close(c.exiting): once the loop has ended (and a closer has
+	// returned) no redial may start any more. The reconnect goroutine checks ctx
+	// under reconnLk right before it dials.
+	defer func() {
+		c.reconnLk.Lock()
+		cancel()
+		c.reconnLk.Unlock()
+	}()
 
 	// ////
 
